@@ -224,7 +224,8 @@ Definition as_message (c : nat) (v : wval) : res (list field) :=
   | _ => Err
   end.
 
-Definition to_i64 (n : N) : Z := if n <? U63 then Z.of_N n else (Z.of_N n - Z.of_N U64)%Z.
+Definition to_i64 (n : N) : Z :=
+  let m := n mod U64 in if m <? U63 then Z.of_N m else (Z.of_N m - Z.of_N U64)%Z.
 Definition to_i32 (n : N) : Z :=
   let m := n mod U32 in if m <? U31 then Z.of_N m else (Z.of_N m - Z.of_N U32)%Z.
 (* `value as u64` of an i64 / of an i32 (sign extension) *)
